@@ -2271,6 +2271,25 @@ get_type(CPPType *type, bool global) {
     type = type->resolve_type(&parser, &parser);
   }
 
+  if (!global && type->as_typedef_type() != nullptr) {
+    // A typedef of a class that is declared by this library becomes another
+    // name for that class in the module, even when the class belongs to a
+    // different library.  Mark it global, like the typedefs scan_typedef_type()
+    // accepts, so that interrogate_module knows this library needs the other
+    // one; a typedef that a header of another library declares and we merely
+    // mention stays as it is.
+    CPPType *wrapped_type = type;
+    while (wrapped_type->as_typedef_type() != nullptr) {
+      wrapped_type = wrapped_type->as_typedef_type()->_type;
+    }
+    if (wrapped_type->as_struct_type() != nullptr &&
+        type->_file._source == CPPFile::S_local &&
+        !in_ignorefile(type->_file._filename_as_referenced) &&
+        TypeManager::is_exported(type)) {
+      global = true;
+    }
+  }
+
   TypeIndex index = 0;
 
   // First, check to see if it's already there.
